@@ -1,9 +1,15 @@
-/* Fake clock: the statically linked libjwt calls this time(). */
+/* Fake clock: the statically linked libjwt calls this time().  With vh_tick != 0 the clock advances on every reading
+ * (one operation must take one reading: values derived from several readings disagree). */
 #include <time.h>
 time_t vh_now = 1700000000;
+time_t vh_tick = 0;
+unsigned long vh_clock_reads = 0;
 time_t time(time_t *t)
 {
+	time_t v = vh_now;
+	vh_now += vh_tick;
+	vh_clock_reads++;
 	if (t)
-		*t = vh_now;
-	return vh_now;
+		*t = v;
+	return v;
 }
